@@ -154,7 +154,7 @@ def _verbatim(ctx, loader):
     for node, call in restores:
         loop = K.enclosing_for(graph, node)
         names = set(['presence_time', 'placement_time'])
-        mine = [f for f in facts[node]]
+        mine = N.raw_only(facts[node])
         le = [f for f in mine if f.key[0] == 'cmp' and
               f.key[1] in ('<=', '<') and sorted(
                   t for t, _c in f.key[2]) == sorted(names) and
@@ -220,7 +220,7 @@ def _keys_and_identity(ctx, loader, master, func, graph, facts):
         c, 'force_set_identity'))
     ctx.require(forces, 'force_set_identity in restore_placement')
     for node, call in forces:
-        fs = facts[node]
+        fs = N.raw_only(facts[node])
         ok_restored = any(f.key[0] == 'truth' and f.key[2] and
                           f.key[1] == 'restored' for f in fs)
         ok_flag = any(f.key[0] == 'truth' and f.key[2] and
@@ -248,7 +248,7 @@ def _keys_and_identity(ctx, loader, master, func, graph, facts):
         N.txt(t) == 'self.identity' for t, _v, _k in K.assigns_attr(n))]
     ctx.require(stores, 'store of self.identity in force_set_identity')
     for node in stores:
-        extra = [N.show(f) for f in ffacts[node]
+        extra = [N.show(f) for f in N.raw_only(ffacts[node])
                  if not (f.key[0] == 'is' and not f.key[3] and
                          f.key[1] == param and f.key[2] == 'None') and
                  not (f.key[0] == 'truth' and f.key[2] and
